@@ -214,13 +214,22 @@ def _run(case):
     stream = b"".join(req_bytes(i, q) for i, q in enumerate(case["reqs"]))
     pos = 0
     out = []
+    # The peer sits behind a socket: what it sends - bytes, and its close - reaches the channel only while the transport
+    # is reading (producerState "producing"); while the channel has paused the transport the bytes wait and the close is
+    # not noticed.  They are delivered right after the operation that makes the transport read again.
+    queued, peer_closed = b"", False
+    reading = lambda: t.producerState != "paused"
     for op in case["ops"]:
         log.clear()
         k = op[0]
         if k == "data":
-            if connected[0] and not t.disconnecting:       # a real transport stops reading at loseConnection()
-                ch.dataReceived(stream[pos:pos + op[1]])
+            chunk = stream[pos:pos + op[1]]
             pos += op[1]
+            if connected[0] and not t.disconnecting:       # a real transport stops reading at loseConnection()
+                if reading():
+                    ch.dataReceived(chunk)
+                else:
+                    queued += chunk
         elif k == "tick":
             clock.advance(op[1])
         elif k == "tp":
@@ -230,10 +239,21 @@ def _run(case):
             if connected[0]:
                 ch.resumeProducing()
         elif k == "lose":
-            report_loss()
+            peer_closed = True
+            if reading():
+                report_loss()
         elif k == "app":
             if op[1] < len(handed):
                 act(op[1], op[2])
+        # settle: if the transport reads (again): first the waiting bytes, then the close
+        if reading() and queued:
+            chunk, queued = queued, b""
+            log.append(f"Q{len(chunk)}")
+            if connected[0] and not t.disconnecting:
+                ch.dataReceived(chunk)
+        if reading() and peer_closed and connected[0]:
+            log.append("Z")
+            report_loss()
         out.append(list(log))
     return out, t.value(), bool(t.disconnecting)
 
@@ -265,7 +285,7 @@ def model_equal(case, impl_obs, model_obs):
         for e in ([] if w == "-" else w.split(",")):
             if e.startswith("P"):
                 dispatched.add(e[1:])
-            if re.fullmatch(r"C\d+", e) or (re.fullmatch(r"L\d+", e) and e[1:] not in dispatched):
+            if re.fullmatch(r"C\d+|Q\d+|Z", e) or (re.fullmatch(r"L\d+", e) and e[1:] not in dispatched):
                 continue
             keep.append(e)
         ops.append(",".join(keep) if keep else "-")
@@ -291,7 +311,7 @@ def check_log(case, obs):
     netpaused, waiting, closed, conn_lost = False, False, False, False
     writes_of = {}
     created_, dispatched_, nlost, at_loss = set(), set(), {}, set()
-    delivered, ends, tot = 0, [], 0
+    delivered, ends, tot, queued_, peer_closed_ = 0, [], 0, 0, False
     for i, q in enumerate(case["reqs"]):
         tot += len(req_bytes(i, q))
         ends.append(tot)
@@ -301,7 +321,24 @@ def check_log(case, obs):
             waiting = True
         elif op[0] == "tr":
             waiting = False
+        paused_at_start, gone_at_start = netpaused, (closed or conn_lost)
+        if op[0] == "data" and not gone_at_start:
+            if paused_at_start:
+                queued_ += op[1]
+            else:
+                delivered += op[1]
+        if op[0] == "lose":
+            peer_closed_ = True
         for e in evs:
+            if re.fullmatch(r"Q\d+", e):            # the driver delivers the bytes that waited while reading was paused
+                if netpaused:
+                    bad.append(("driver", where + "queued bytes delivered while reading is paused"))
+                if not (closed or conn_lost):
+                    delivered += int(e[1:])
+                queued_ = 0
+                continue
+            if e == "Z":                            # the driver lets the channel notice the peer's close
+                continue
             if e.startswith("!"):
                 bad.append(("exception-escapes", where + f"{e[1:]} raised inside finish() / connectionLost / loseConnection"))
                 continue
@@ -380,6 +417,15 @@ def check_log(case, obs):
                 if sign is None:
                     bad.append(("notify-value", where + e))
             elif kind == "NP":
+                # reading may be switched off for two reasons only: the transport asked the idle channel to wait, or more
+                # than the eager-read limit is buffered behind the request being handled (and the transport is not waiting)
+                buffered = delivered - (ends[open_] if open_ is not None and open_ < len(ends) else delivered)
+                idle_wait = op[0] == "tp" and open_ is None
+                eager_full = open_ is not None and buffered > case["eager"] and not waiting
+                if not (idle_wait or eager_full or closed):
+                    bad.append(("reading-paused-without-cause",
+                                where + f"reading paused while request {open_} is handled, {buffered} bytes buffered (limit "
+                                        f"{case['eager']}), transport {'waiting' if waiting else 'writable'}: a peer close would go unnoticed"))
                 netpaused = True
             elif kind == "NR":
                 netpaused = False
@@ -413,11 +459,11 @@ def check_log(case, obs):
                 else:
                     bad.append(("notify-not-fired", where + f"Deferred {i}.{d} still pending although request {i} "
                                                            f"{'finished' if i in finished else 'lost its connection'}"))
+        if peer_closed_ and not netpaused and not conn_lost:
+            bad.append(("peer-close-not-noticed", where + "the peer closed, the transport is reading, but connectionLost was not delivered"))
         if open_ is None and not closed and not waiting and netpaused and not conn_lost:
             bad.append(("reading-left-paused", where + "channel idle, transport writable, but reading is still paused"))
         # head-of-line blocking must end: an idle channel holds no complete request back
-        if op[0] == "data":
-            delivered += op[1]
         if open_ is None and not closed and not conn_lost and nextp < len(ends) and delivered >= ends[nextp]:
             bad.append(("pipelined-request-stalled", where + f"request {nextp} is completely received, no request is being "
                                                             f"handled, but it was not handed to the application"))
@@ -527,6 +573,8 @@ def _random_case(rng, big=False):
         elif not lost and r < 0.58:
             ops.append(["lose"])
             lost = True
+        elif lost and r < 0.2:
+            ops.append([rng.choice(["tp", "tr", "tr"])])       # the close may still be waiting behind a paused transport
         else:
             i = rng.randrange(min(n, 8))
             a = rng.choice("nnwwfffru") if not lost else rng.choice("nwf")
@@ -552,7 +600,7 @@ def gen(rng, tier):
                     ops, pos, lost, ok = [], 0, False, True
                     for w in word:
                         o = list(alpha[w])
-                        if lost and o[0] != "app":
+                        if lost and o[0] not in ("app", "tp", "tr"):     # (a peer that closed sends nothing more)
                             ok = False
                             break
                         if o[0] == "data":
@@ -608,6 +656,29 @@ def gen(rng, tier):
                                  [["tick", 5], ["lose"]]):
                         cases.append({"eager": 16384, "sync": rng.random() < 0.3, "tmo": 5, "abt": None, "reqs": reqs,
                                       "ops": [["data", cut]] + tail})
+    # the peer behind a socket: transport pause/resume cycles inside the handling of one request, then the client closes
+    # while the response is outstanding; bytes and closes that arrive while reading is paused (idle pause, eager-read limit)
+    one = len(req_bytes(0, {"pad": 0, "close": False}))
+    for script in ("n", "nw", ["n:fn"], "nn", ["n:w", "n"], "rn"):
+        for extra in (0, 1):
+            reqs = [{"pad": 0, "close": False, "script": script}] + [{"pad": 0, "close": False, "script": "nf"}] * extra
+            for eager in (16384, 20):
+                for cycles in (1, 2, 3):
+                    for inner in ([], [["app", 0, "w"]]):
+                        for tail in ([["lose"]], [["lose"], ["app", 0, "w"]], [["lose"], ["app", 0, "f"]], [["lose"], ["app", 0, "n"]],
+                                     [["tp"], ["lose"], ["tr"]], [["tp"], ["lose"], ["app", 0, "f"], ["tr"]]):
+                            cases.append({"eager": eager, "sync": False, "reqs": reqs,
+                                          "ops": [["data", one * (1 + extra)]] + ([["tp"]] + inner + [["tr"]]) * cycles + tail})
+            for eager in (0, 20, 16384):
+                for hist in ([["tp"], ["data", one], ["tr"]], [["tp"], ["lose"], ["tr"]], [["tp"], ["data", one], ["lose"], ["tr"]],
+                             [["tp"], ["data", 10], ["tr"], ["data", one - 10], ["lose"]],
+                             [["data", 10], ["tp"], ["data", one - 10], ["lose"], ["app", 0, "n"], ["tr"], ["app", 0, "n"]],
+                             [["data", one], ["data", one], ["lose"], ["app", 0, "w"], ["app", 0, "f"]],
+                             [["data", one], ["data", 10], ["data", one - 10], ["lose"], ["app", 0, "f"], ["app", 1, "f"]],
+                             [["data", one], ["data", one], ["tp"], ["app", 0, "f"], ["tr"], ["lose"], ["app", 1, "w"], ["app", 1, "f"]],
+                             [["data", one], ["tp"], ["data", one], ["tr"], ["data", 5], ["lose"], ["app", 0, "f"]]):
+                    cases.append({"eager": eager, "sync": False, "reqs": (reqs + [{"pad": 0, "close": False, "script": "nf"}])[:2],
+                                  "ops": hist})
     for _ in range(1200 if tier == "quick" else 15000):
         cases.append(_random_case(rng))
     for _ in range(6 if tier == "quick" else 60):
@@ -638,6 +709,11 @@ def corpus():
          "ops": [["data", 200], ["app", 0, "f"], ["app", 1, "f"]]},
         {"eager": 16384, "sync": True, "reqs": [{"pad": 0, "close": True, "script": ["n:ln", "w", "f"]}, {"pad": 0, "close": False, "script": "f"}],
          "ops": [["data", 200], ["lose"]]},
+        # the send buffer fills and drains while a long-poll request is handled; then the client goes away
+        {"eager": 16384, "sync": False, "reqs": [{"pad": 0, "close": False, "script": "n"}],
+         "ops": [["data", 37], ["tp"], ["tr"], ["lose"], ["app", 0, "w"]]},
+        # the client sends and closes while the idle channel was asked to wait; both arrive when the transport resumes
+        {"eager": 16384, "sync": False, "reqs": two, "ops": [["tp"], ["data", 74], ["lose"], ["tr"], ["app", 0, "n"]]},
         # idle timeout while half of the second request is buffered, then forceAbortClient; timeout disabled while handling
         # the connection is lost while the second request's body is half received; its Deferred was taken in gotLength
         {"eager": 16384, "sync": False, "tmo": None, "abt": None,
